@@ -930,6 +930,134 @@ Proof.
   all: destruct curv; [apply (mk_flat2_wf' _ _ _ Ed) | apply (mk_curved_wf _ _ _ _ _ Ed) | apply (mk_curved_wf _ _ _ _ _ Ed)].
 Qed.
 
+(* ------------------------------------------------------------ frommatrix *)
+
+(* a 2-d rotation matrix has the form ((a, -c), (c, a)) *)
+Lemma rot2_form (m : M2) : is_rot2 m -> exists a c, m = ((a, - c), (c, a)) /\ a * a + c * c = 1.
+Proof.
+  destruct m as [[a b] [c d]]. unfold is_rot2. unf. intros [Ho Hd].
+  injection Ho as H1 H2 H3 H4.
+  assert (Ead : a = d) by nsatz. assert (Ebc : b = - c) by nsatz.
+  exists a, c. subst d b. split; [reflexivity | nsatz].
+Qed.
+
+Lemma sqrt_1_div (v : V2) : dot2 v v = 1 -> sdiv2 v (norm2 sqrt v) = v.
+Proof.
+  intros Hu. unfold norm2. numR. rewrite Hu, sqrt_1. d2 v. unf. pair_eq; field.
+Qed.
+
+(* Parallel2dGeometry.frommatrix with a rotation matrix m and translation t: whenever it succeeds,
+   every detector point is  t + m (detector point of the default geometry), every ray direction is
+   m (default ray direction) *)
+Lemma par2d_frommatrix_spec (m : M2) (tr : V2) (g : par2d) (a : R * R) (u : R) (cs : R * R) :
+  is_rot2 m -> par2d_frommatrix sqrt m tr = Some g ->
+  par2d_detpoint g a (u, cs) = add2 tr (mv2 m (par2d_detpoint par2d_default a (u, cs))) /\
+  par2d_det_axis g a = mv2 m (par2d_det_axis par2d_default a) /\
+  p2_tr g = tr.
+Proof.
+  intros Hm Hg. destruct (rot2_form m Hm) as [p [q [-> Hc]]].
+  unfold par2d_frommatrix, mk_par2d, obind in Hg.
+  destruct (tsys2 sqrt _ _) as [m0|]; [|discriminate Hg].
+  unfold mk_flat1 in Hg. numR.
+  assert (Hu : dot2 (mv2 (p, - q, (q, p)) (1, 0)) (mv2 (p, - q, (q, p)) (1, 0)) = 1) by (unf; nsatz).
+  destruct (Reqb_spec (norm2 sqrt (mv2 (p, - q, (q, p)) (1, 0))) 0) as [Hn|Hn].
+  { apply norm2_zero_iff in Hn. rewrite Hn in Hu. unf. lra. }
+  rewrite (sqrt_1_div _ Hu) in Hg. injection Hg as <-.
+  unfold par2d_detpoint, par2d_refpoint, par_refpoint2, par2d_det_axis, par2d_rot, par2d_default.
+  destruct cs as [cu su]. cbn [p2_pos p2_tr p2_det det2_axis surf2]. destruct a as [c s]. d2 tr. unf.
+  repeat split; pair_eq; ring.
+Qed.
+
+(* FanBeamGeometry.frommatrix (flat detector) with a rotation matrix: source, detector point and
+   detector axis are t + m (default), for all radii, angles, shifts and detector parameters *)
+Lemma fan_frommatrix_spec (rs rd : R) (m : M2) (tr : V2) (g : fan) (a : R * R) (ssh dsh : V2) (u : R) (cs : R * R) :
+  is_rot2 m -> fan_frommatrix sqrt rs rd None m tr = Some g ->
+  fan_detpoint g a dsh (u, cs) = add2 tr (mv2 m (fan_detpoint (fan_default rs rd) a dsh (u, cs))) /\
+  fan_src g a ssh = add2 tr (mv2 m (fan_src (fan_default rs rd) a ssh)) /\
+  fan_det_axis g a = mv2 m (fan_det_axis (fan_default rs rd) a).
+Proof.
+  intros Hm Hg. destruct (rot2_form m Hm) as [p [q [-> Hc]]].
+  unfold fan_frommatrix, mk_fan, obind in Hg.
+  destruct (tsys2 sqrt _ _) as [m0|]; [|discriminate Hg].
+  destruct (iszero2 _); [discriminate Hg|].
+  unfold mk_flat1 in Hg. numR.
+  assert (Hu : dot2 (mv2 (p, - q, (q, p)) (1, 0)) (mv2 (p, - q, (q, p)) (1, 0)) = 1) by (unf; nsatz).
+  assert (Hv : dot2 (mv2 (p, - q, (q, p)) (0, 1)) (mv2 (p, - q, (q, p)) (0, 1)) = 1) by (unf; nsatz).
+  destruct (Reqb_spec (norm2 sqrt (mv2 (p, - q, (q, p)) (1, 0))) 0) as [Hn|Hn].
+  { apply norm2_zero_iff in Hn. rewrite Hn in Hu. unf. lra. }
+  rewrite (sqrt_1_div _ Hu), (sqrt_1_div _ Hv) in Hg.
+  destruct (Rltb rs 0); [discriminate Hg|]. destruct (Rltb rd 0); [discriminate Hg|].
+  destruct (Reqb rs 0 && Reqb rd 0); [discriminate Hg|]. injection Hg as <-.
+  unfold fan_detpoint, fan_refpoint, fan_src, fan_det_axis, fan_rot, fan_default.
+  destruct cs as [cu su]. cbn [f_rs f_rd f_s2d f_tr f_det det2_axis surf2]. destruct a as [c s]. d2 tr. d2 ssh. d2 dsh. unf.
+  repeat split; pair_eq; ring.
+Qed.
+
+
+(* a rotation maps cross products to cross products *)
+Lemma rot3_cross (m : M3) (x y : V3) : is_rot3 m -> mv3 m (cross3 x y) = cross3 (mv3 m x) (mv3 m y).
+Proof.
+  destruct m as [[[[a b] c] [[d e] f]] [[g h] i]]; d3 x; d3 y. unfold is_rot3. unf. intros [Ho Hd].
+  injection Ho as H1 H2 H3 H4 H5 H6 H7 H8 H9.
+  pair_eq; nsatz.
+Qed.
+
+(* Rodrigues' formula in vector form *)
+Lemma axis_rot_apply (ax : V3) (c s : R) (v : V3) :
+  mv3 (axis_rot ax (c, s)) v =
+  add3 (scal3 c v) (add3 (scal3 ((1 - c) * dot3 ax v) ax) (scal3 s (cross3 ax v))).
+Proof. d3 ax; d3 v. unf. pair_eq; ring. Qed.
+
+(* conjugation: rotating about the image axis m ax after applying m = applying m after rotating about ax *)
+Lemma axis_rot_conj (m : M3) (ax : V3) (a : R * R) (v : V3) : is_rot3 m ->
+  mv3 (axis_rot (mv3 m ax) a) (mv3 m v) = mv3 m (mv3 (axis_rot ax a) v).
+Proof.
+  intros Hm. destruct a as [c s]. rewrite !axis_rot_apply.
+  rewrite (rot3_isometry m ax v (proj1 Hm)), <- (rot3_cross m ax v Hm).
+  rewrite !mv3_add, !mv3_scal. reflexivity.
+Qed.
+
+Lemma sqrt_1_div3 (v : V3) : dot3 v v = 1 -> sdiv3 v (norm3 sqrt v) = v.
+Proof. intros Hu. unfold norm3. numR. rewrite Hu, sqrt_1. d3 v. unf. pair_eq; field. Qed.
+Lemma rot3_unit (m : M3) (v : V3) : is_rot3 m -> dot3 v v = 1 -> dot3 (mv3 m v) (mv3 m v) = 1.
+Proof. intros Hm Hv. rewrite (rot3_isometry m v v (proj1 Hm)). exact Hv. Qed.
+
+(* the default Parallel3dAxisGeometry *)
+Definition par3a_default : @par3a R :=
+  {| pa_axis := (0, 0, 1); pa_pos := (0, 1, 0); pa_tr := (0, 0, 0); pa_det := Flat2 (1, 0, 0) (0, 0, 1);
+     pa_pos_arg := None; pa_axes_arg := None |}.
+
+(* Parallel3dAxisGeometry.frommatrix with a rotation matrix m and translation t: whenever it succeeds,
+   every detector point is t + m (default detector point); the rotation is conjugated by m *)
+Lemma par3a_frommatrix_spec (m : M3) (tr : V3) (g : par3a) (a : R * R) (p : dpar3) :
+  is_rot3 m -> par3a_frommatrix sqrt m tr = Some g ->
+  par3a_detpoint g a p = add3 tr (mv3 m (par3a_detpoint par3a_default a p)) /\
+  pa_axis g = mv3 m (0, 0, 1) /\ pa_tr g = tr.
+Proof.
+  intros Hm Hg. unfold par3a_frommatrix, mk_par3a, obind in Hg.
+  destruct (tsys3 sqrt _ _) as [m0|]; [|discriminate Hg].
+  assert (U1 : dot3 (mv3 m (0, 0, 1)) (mv3 m (0, 0, 1)) = 1) by (apply rot3_unit; [exact Hm | unf; ring]).
+  assert (U2 : dot3 (mv3 m (1, 0, 0)) (mv3 m (1, 0, 0)) = 1) by (apply rot3_unit; [exact Hm | unf; ring]).
+  unfold unit_axis, mk_flat2 in Hg. numR.
+  destruct (Reqb_spec (norm3 sqrt (mv3 m (0, 0, 1))) 0) as [Hn|Hn].
+  { apply norm3_zero_iff in Hn. rewrite Hn in U1. unf. lra. }
+  destruct (Reqb_spec (norm3 sqrt (cross3 (mv3 m (1, 0, 0)) (mv3 m (0, 0, 1)))) 0) as [Hn2|Hn2]; [discriminate Hg|].
+  rewrite !(sqrt_1_div3 _ U1), !(sqrt_1_div3 _ U2) in Hg. injection Hg as <-.
+  split; [|split; reflexivity].
+  rewrite !par3a_rigid. cbn [pa_axis pa_pos pa_tr pa_det par3a_default].
+  destruct p as [[[u v] [cu su]] [cv sv]]. cbn [surf3].
+  assert (E : add3 (sub3 (add3 (mv3 m (0, 1, 0)) tr) tr) (add3 (scal3 u (mv3 m (1, 0, 0))) (scal3 v (mv3 m (0, 0, 1))))
+              = mv3 m (add3 (sub3 (0, 1, 0) (0, 0, 0)) (add3 (scal3 u (1, 0, 0)) (scal3 v (0, 0, 1))))).
+  { rewrite !mv3_add, !mv3_scal, mv3_sub.
+    destruct (mv3 m (0, 1, 0)) as [[x0 x1] x2], (mv3 m (1, 0, 0)) as [[y0 y1] y2], (mv3 m (0, 0, 1)) as [[z0 z1] z2],
+      (mv3 m (0, 0, 0)) as [[w0 w1] w2] eqn:Ew. d3 tr.
+    assert (Hz : mv3 m (0, 0, 0) = (0, 0, 0)) by (destruct m as [[[[a1 a2] a3] [[a4 a5] a6]] [[a7 a8] a9]]; unf; pair_eq; ring).
+    rewrite Hz in Ew. injection Ew as <- <- <-. unf. apply f_equal2; [apply f_equal2|]; ring. }
+  numR. rewrite E, (axis_rot_conj m _ a _ Hm).
+  assert (Z : forall w : V3, add3 (0, 0, 0) w = w) by (intros [[w0 w1] w2]; unf; pair_eq; ring).
+  rewrite Z. reflexivity.
+Qed.
+
 (* ---- statements assembled for Props.v ---- *)
 Lemma axis_rotation_is_rotation_l : forall (ax : R * R * R) (a : R * R),
   dot3 ax ax = 1 -> on_circle a ->
